@@ -145,7 +145,26 @@ def tie(ctx):
                              "programs_model_unscoped": len(unscoped)}}
 
 
+def always(ctx):
+    """dynamic oracle for "each activation has its own locals": containers created inside functions from literals
+    (tools/hist_gen.py activation_programs: called twice / recursive / closure factory / loop / accumulator argument),
+    compiled by the real compiler, run by LuaCore, compared with a fresh container per evaluation of the literal"""
+    import hist_gen
+    n = 40 if ctx.tier == "quick" else 600
+    bad = hist_gen.check_activation_programs(ctx, n)
+    ctx.c10_activation = bad
+    for src, exp, got in bad[:3]:
+        ctx.brk("oracle:activation-containers", "expected %s got %s in\n%s" % (exp[:12], got[:12], src[:1500]))
+    return {"activation_container_programs": n, "activation_container_failures": len(bad)}
+
+
 def search(ctx):
+    act = getattr(ctx, "c10_activation", None)
+    if act:
+        src, exp, got = act[0]          # sorted by size: the smallest failing program
+        return {"program": src, "files": {"/main.sy": src}, "expected": exp, "actual": got,
+                "what": "a container literal inside a function is not a new container for every activation / closure / iteration",
+                "programs_affected": len(act)}
     st = getattr(ctx, "c10", None)
     if st is None:
         return None
